@@ -420,6 +420,13 @@ func check(id, tier string, only int) int {
 	if capped {
 		cov["distinct_capped"] = true
 	}
+	if v, ok := notes["exhaustive"]; ok {
+		// the schema wants a boolean; a description of the enumerated space goes elsewhere
+		if _, isBool := v.(bool); !isBool {
+			notes["exhaustive_space_note"] = v
+			delete(notes, "exhaustive")
+		}
+	}
 	for k, v := range notes {
 		if _, dup := cov[k]; !dup {
 			cov[k] = v
